@@ -574,6 +574,42 @@ void convex_hull(const Array<Vec2> points, Array<Vec2>& result) {
         return;
     }
 
+    // Points that are collinear up to round-off (e.g. a line rotated by a multiple of 90 degrees)
+    // are not handled reliably by Qhull: it may neither report them as singular nor keep the
+    // extreme points.  Their hull is the segment between the two extreme points.
+    {
+        // Extreme points along the axis with the largest extent
+        Vec2 lo = points.items[0];
+        Vec2 hi = points.items[0];
+        const Vec2* p = points.items;
+        for (uint64_t num = points.count; num > 0; num--, p++) {
+            if (p->x < lo.x) lo.x = p->x;
+            if (p->x > hi.x) hi.x = p->x;
+            if (p->y < lo.y) lo.y = p->y;
+            if (p->y > hi.y) hi.y = p->y;
+        }
+        const uint64_t axis = (hi.x - lo.x >= hi.y - lo.y) ? 0 : 1;
+        const Vec2* pmin = points.items;
+        const Vec2* pmax = points.items;
+        p = points.items;
+        for (uint64_t num = points.count; num > 0; num--, p++) {
+            if (p->e[axis] < pmin->e[axis]) pmin = p;
+            if (p->e[axis] > pmax->e[axis]) pmax = p;
+        }
+        const Vec2 direction = *pmax - *pmin;
+        const double tolerance = 1e-12 * direction.length_sq();
+        bool collinear = true;
+        p = points.items;
+        for (uint64_t num = points.count; collinear && num > 0; num--, p++) {
+            if (fabs(direction.cross(*p - *pmin)) > tolerance) collinear = false;
+        }
+        if (collinear) {
+            result.append(*pmin);
+            if (pmax->x != pmin->x || pmax->y != pmin->y) result.append(*pmax);
+            return;
+        }
+    }
+
     qhT qh;
     QHULL_LIB_CHECK;
     qh_zero(&qh, error_logger);
